@@ -60,7 +60,7 @@ def gen_trace(tid, kw, calls, seeds_by_gen, explicit_args=None):
                 names[g - 1].append(inst.name)
                 ev["post"] = {"outs": [list(o) for o in outs], "names": [list(n) for n in names]}
             events.append(ev)
-    return {"tid": tid, "inst": PLACEHOLDER, "filt": [], "kinds": [], "featcheck": False, "fresh_obs": [],
+    return {"tid": tid, "inst": PLACEHOLDER, "filt": [], "kinds": [], "featcheck": False, "freshcheck": False, "fresh_obs": [],
             "gen": abstract_params(kw), "seeds": seeds, "events": events, "kind": "G", "kw": kw}
 
 
@@ -71,13 +71,17 @@ def iter_and_coverage_trace(tid, kw, seed, n_cov):
 
     def it():
         g = GeneralInstanceGenerator(**dict(kw, seed=seed, iteration_limit=limit))
-        a = len(list(g))
-        b = len(list(g))
-        return a, b, len(g)
+        names = [g.generate().name]
+        first = list(g)
+        names += [x.name for x in first]
+        names.append(g.generate().name)
+        second = list(g)
+        names += [x.name for x in second]
+        return len(first), len(second), len(g), names
 
     out, r = _outcome(it)
     events.append({"a": "Iter", "limit": limit, "out": out, "counts": [r[0], r[1]] if out == "ok" else [],
-                   "len": r[2] if out == "ok" else -1})
+                   "len": r[2] if out == "ok" else -1, "names": r[3] if out == "ok" else []})
     # coverage: with the machine count fixed, the eligible machines seen over many instances
     p = abstract_params(kw)
     M = p["machines"][1]
@@ -95,7 +99,7 @@ def iter_and_coverage_trace(tid, kw, seed, n_cov):
     out, seen = _outcome(cov)
     if out == "ok":
         events.append({"a": "Coverage", "M": M, "k": p["k"], "seen": seen})
-    return {"tid": tid, "inst": PLACEHOLDER, "filt": [], "kinds": [], "featcheck": False, "fresh_obs": [],
+    return {"tid": tid, "inst": PLACEHOLDER, "filt": [], "kinds": [], "featcheck": False, "freshcheck": False, "fresh_obs": [],
             "gen": p, "seeds": [seed], "events": events, "kind": "G", "kw": kw}
 
 
